@@ -147,6 +147,46 @@ def kb2b(P, C):
              nested + ": with nknots == 2*order+2 both tests hold for the single centre, so right-margin points are evaluated without the shift (wrong values)")
 
 
+def kb7(P, C):
+    C.rule("KB-7", "bspline_nonzero moves the value basis and the derivative basis in lock-step when it re-indexes them for a partially supported "
+           "point: every element move `values[a] = values[b]` has the twin `derivs[a] = derivs[b]` with the same index expressions in the same "
+           "loop, and both are zero-filled over the same range", floor=2)
+    for f in kernels(P):
+        if f.name != "bspline_nonzero":
+            continue
+        vid, did = f.params[5]["id"], f.params[6]["id"]
+
+        def moves(aid):
+            out = []
+            for i in f.walk():
+                n = f.nodes[i]
+                if n["k"] != "BinaryOperator" or n["op"] != "=":
+                    continue
+                l = f.strip(n["ch"][0])
+                if f.k(l) != "ArraySubscriptExpr" or f.k(f.strip(f.nodes[l]["ch"][0])) != "DeclRefExpr" or f.nodes[f.strip(f.nodes[l]["ch"][0])]["decl"]["id"] != aid:
+                    continue
+                r = f.strip(n["ch"][1])
+                # chained zero fill: values[j] = derivs[j] = 0.0
+                while f.k(r) == "BinaryOperator" and f.nodes[r]["op"] == "=":
+                    r = f.strip(f.nodes[r]["ch"][1])
+                loops = tuple(f.render(f.nodes[a]["cond"]).replace(" ", "") + "|" + f.render(f.nodes[a]["inc"]).replace(" ", "") for a in f.ancestors(i) if f.k(a) == "ForStmt")
+                li = f.render(f.nodes[l]["ch"][1]).replace(" ", "")
+                if f.k(r) == "ArraySubscriptExpr" and f.k(f.strip(f.nodes[r]["ch"][0])) == "DeclRefExpr" and f.nodes[f.strip(f.nodes[r]["ch"][0])]["decl"]["id"] == aid:
+                    out.append(("move", li, f.render(f.nodes[r]["ch"][1]).replace(" ", ""), loops))
+                elif f.nodes[r].get("v") == 0 or f.nodes[r].get("cv") == 0:
+                    out.append(("zero", li, "", loops))
+            return sorted(out)
+        mv, md = moves(vid), moves(did)
+        # the derivative array has additional stores (the derivative formula itself): compare only moves and zero fills inside the rearrangement
+        rear = lambda ms: [m for m in ms if m[0] == "move" or (m[0] == "zero" and m[3])]
+        a, b = rear(mv), rear(md)
+        ok = a == b and len([m for m in a if m[0] == "move"]) >= 2
+        diff = [m for m in a if m not in b] + [m for m in b if m not in a]
+        C.ob("KB-7", kname(f), "lock-step", ok, f.where(),
+             ("%d moves and %d zero fills, identical for values and derivs" % (len([m for m in a if m[0] == "move"]), len([m for m in a if m[0] == "zero"]))) if ok else
+             "values and derivs are re-indexed differently: %s" % [(m[0], m[1], m[2]) for m in diff][:4])
+
+
 # ------------------------------------------------------------------ KB-3
 def gradient_fns(P):
     fs = [f for f in P.fns("ndsplineeval_gradient") if f.unit == "driver" and f.file.endswith("bspline_multi.h")]
